@@ -220,3 +220,138 @@ Proof.
     by (apply linear_on_rect with (nx := nx) (ny := ny); lra).
   tauto.
 Qed.
+
+(** * Coordinates and resolution *)
+Lemma iota_length n : length (iota n) = Z.to_nat n.
+Proof. unfold iota. rewrite map_length, seq_length. reflexivity. Qed.
+
+Lemma iota_nth n i d : (0 <= i < n)%Z -> nth (Z.to_nat i) (iota n) d = i.
+Proof.
+  intros H. unfold iota.
+  rewrite (nth_indep _ d (Z.of_nat 0)) by (rewrite map_length, seq_length; lia).
+  rewrite map_nth. rewrite seq_nth by lia. simpl. lia.
+Qed.
+
+Lemma map_iota_nth (f : Z -> Q) n i d : (0 <= i < n)%Z ->
+  nth (Z.to_nat i) (map f (iota n)) d = f i.
+Proof.
+  intros H.
+  rewrite (nth_indep _ d (f 0%Z)) by (rewrite map_length, iota_length; lia).
+  rewrite map_nth. rewrite iota_nth by assumption. reflexivity.
+Qed.
+
+Definition axis_aligned (g : geobox) : Prop := ab (g_A g) == 0 /\ ad (g_A g) == 0.
+
+Lemma is_affine_st_true c A : 0 < tol_st c -> ab A == 0 -> ad A == 0 -> is_affine_st c A = true.
+Proof.
+  intros Ht Hb Hd. unfold is_affine_st, Qltb.
+  assert (E1 : Qle_bool (tol_st c) (Qabs (ab A)) = false).
+  { apply Qle_bool_false. rewrite Hb. exact Ht. }
+  assert (E2 : Qle_bool (tol_st c) (Qabs (ad A)) = false).
+  { apply Qle_bool_false. rewrite Hd. exact Ht. }
+  rewrite E1, E2. reflexivity.
+Qed.
+
+Lemma coordinates_labels c g : 0 < tol_st c -> axis_aligned g ->
+  exists xs ys, coordinates c g = Ok (xs, ys) /\
+    length xs = Z.to_nat (g_nx g) /\ length ys = Z.to_nat (g_ny g) /\
+    (forall i y, (0 <= i < g_nx g)%Z ->
+       nth (Z.to_nat i) xs 0 == fst (pix2wld g (Zq i + (1 # 2), y))) /\
+    (forall j x, (0 <= j < g_ny g)%Z ->
+       nth (Z.to_nat j) ys 0 == snd (pix2wld g (x, Zq j + (1 # 2)))).
+Proof.
+  intros Ht [Hb Hd]. unfold coordinates. rewrite (is_affine_st_true c _ Ht Hb Hd).
+  eexists _, _; split; [reflexivity|].
+  split; [rewrite map_length; apply iota_length|].
+  split; [rewrite map_length; apply iota_length|].
+  split.
+  - intros i y Hi. rewrite map_iota_nth by assumption.
+    unfold pix2wld, apply; simpl. rewrite Hb. field.
+  - intros j x Hj. rewrite map_iota_nth by assumption.
+    unfold pix2wld, apply; simpl. rewrite Hd. field.
+Qed.
+
+Lemma coordinates_not_aligned c g : is_affine_st c (g_A g) = false -> coordinates c g = Err EValue.
+Proof. intros H. unfold coordinates. rewrite H. reflexivity. Qed.
+
+Lemma resolution_axis_aligned c g : 0 < tol_st c -> axis_aligned g ->
+  resolution c g = Ok (aa (g_A g), ae (g_A g)) /\
+  (forall x y, peq (pix2wld g (x + 1, y)) (fst (pix2wld g (x, y)) + aa (g_A g), snd (pix2wld g (x, y)))) /\
+  (forall x y, peq (pix2wld g (x, y + 1)) (fst (pix2wld g (x, y)), snd (pix2wld g (x, y)) + ae (g_A g))).
+Proof.
+  intros Ht [Hb Hd]. unfold resolution. rewrite (is_affine_st_true c _ Ht Hb Hd).
+  split; [reflexivity|]. unfold pix2wld, apply, peq; simpl. split; intros x y.
+  - rewrite Hd. split; ring.
+  - rewrite Hb. split; ring.
+Qed.
+
+(** rotated / sheared grids, the square root as a variable: for EVERY l > 0 with
+    l^2 = a^2 + d^2 the pair (l, det/l) is the length of the pixel x-step and the
+    signed pixel area divided by it; for orthogonal columns its second entry is
+    the (signed) length of the pixel y-step *)
+Lemma resolution_root_spec A l : 0 < l -> l * l == aa A * aa A + ad A * ad A ->
+  let '(rx, ry) := resolution_with_root A l in
+  rx * rx == aa A * aa A + ad A * ad A /\ 0 < rx /\
+  rx * ry == adet A /\
+  (0 < ry <-> 0 < adet A) /\ (ry == 0 <-> adet A == 0) /\
+  (aa A * ab A + ad A * ae A == 0 -> ry * ry == ab A * ab A + ae A * ae A).
+Proof.
+  intros Hl Hll. unfold resolution_with_root.
+  assert (Hl0 : ~ l == 0) by lra.
+  assert (E : l * (adet A / l) == adet A) by (field; exact Hl0).
+  split; [exact Hll|]. split; [exact Hl|]. split; [exact E|].
+  assert (Hil : 0 < / l) by (apply Qinv_lt_0_compat; exact Hl).
+  split; [|split].
+  - split; intros H.
+    + rewrite <- E. apply Qmult_lt_0_compat; assumption.
+    + unfold Qdiv. apply Qmult_lt_0_compat; assumption.
+  - split; intros H.
+    + rewrite <- E, H. ring.
+    + unfold Qdiv. rewrite H. ring.
+  - intros Ho.
+    assert (E2 : (adet A / l) * (adet A / l) == adet A * adet A / (l * l)) by (field; exact Hl0).
+    rewrite E2, Hll.
+    assert (Hn : ~ aa A * aa A + ad A * ad A == 0) by (rewrite <- Hll; intros C; nra).
+    assert (E3 : adet A * adet A ==
+                 (aa A * aa A + ad A * ad A) * (ab A * ab A + ae A * ae A)
+                 - (aa A * ab A + ad A * ae A) * (aa A * ab A + ad A * ae A))
+      by (unfold adet; ring).
+    rewrite E3, Ho. field. exact Hn.
+Qed.
+
+Lemma exact_sqrt_sound q l : exact_sqrt q = Some l -> l * l == q /\ 0 <= l.
+Proof.
+  unfold exact_sqrt.
+  pose proof (Qred_correct q) as Hr.
+  destruct (Qred q) as [n d] eqn:Eq. cbn [Qnum Qden].
+  destruct ((Z.sqrt n * Z.sqrt n =? n)%Z && (Z.sqrt (Z.pos d) * Z.sqrt (Z.pos d) =? Z.pos d)%Z
+            && (0 <=? n)%Z) eqn:E; [|discriminate].
+  intros H; injection H as <-.
+  apply andb_true_iff in E. destruct E as [E E3]. apply andb_true_iff in E. destruct E as [E1 E2].
+  apply Z.eqb_eq in E1, E2. apply Z.leb_le in E3.
+  pose proof (Z.sqrt_nonneg n) as Hn. pose proof (Z.sqrt_nonneg (Z.pos d)) as Hd.
+  set (rn := Z.sqrt n) in *. set (rd := Z.sqrt (Z.pos d)) in *.
+  assert (Hrd : (0 < rd)%Z) by nia.
+  split.
+  - rewrite <- Hr. unfold Qeq, Qmult; cbn [Qnum Qden].
+    rewrite Pos2Z.inj_mul. change (Z.pos (Pos.sqrt d)) with rd. nia.
+  - unfold Qle; cbn [Qnum Qden]. lia.
+Qed.
+
+Lemma resolution_rotated c g rx ry : is_affine_st c (g_A g) = false ->
+  resolution c g = Ok (rx, ry) ->
+  rx * rx == aa (g_A g) * aa (g_A g) + ad (g_A g) * ad (g_A g) /\ 0 < rx /\
+  rx * ry == adet (g_A g) /\ (0 < ry <-> 0 < adet (g_A g)) /\
+  (aa (g_A g) * ab (g_A g) + ad (g_A g) * ae (g_A g) == 0 ->
+     ry * ry == ab (g_A g) * ab (g_A g) + ae (g_A g) * ae (g_A g)).
+Proof.
+  intros Hst. unfold resolution. rewrite Hst.
+  destruct (exact_sqrt _) as [l|] eqn:Es; [|discriminate].
+  destruct (Qeq_bool l 0) eqn:E0; [discriminate|].
+  intros H; injection H as <- <-.
+  destruct (exact_sqrt_sound _ _ Es) as [Hll Hl].
+  assert (Hl0 : ~ l == 0) by (intros C; apply Qeq_bool_iff in C; congruence).
+  assert (Hlp : 0 < l) by lra.
+  pose proof (resolution_root_spec (g_A g) l Hlp Hll) as S.
+  unfold resolution_with_root in S. tauto.
+Qed.
